@@ -25,7 +25,8 @@ import replay  # noqa: E402
 from rustlex import Unsupported  # noqa: E402
 from props import PROPS, STAR_OWNERS, TRUSTED  # noqa: E402
 
-BUILD = os.path.join(VERIF, "build")
+BUILD = os.environ.get("VERIF_BUILD", os.path.join(VERIF, "build"))
+EVID = os.environ.get("VERIF_EVIDENCE", os.path.join(VERIF, "evidence"))
 VERUS = os.environ.get("VERUS", "verus")
 
 
@@ -33,8 +34,8 @@ def sh(cmd, **kw):
     return subprocess.run(cmd, stdout=subprocess.PIPE, stderr=subprocess.PIPE, text=True, **kw)
 
 
-def run_verus(path, rlimit=60, extra=()):
-    cmd = [VERUS, path, "--output-json", "--time", "--error-format=json", "--multiple-errors", "25", "--rlimit", str(rlimit),
+def run_verus(path, rlimit=60, extra=(), multiple=25):
+    cmd = [VERUS, path, "--output-json", "--time", "--error-format=json", "--multiple-errors", str(multiple), "--rlimit", str(rlimit),
            "--triggers-mode", "silent", "--num-threads", "8"] + list(extra)
     t0 = time.time()
     p = sh(cmd, cwd=os.path.dirname(path))
@@ -266,8 +267,58 @@ def check_property(pid, tier, seed):
                 assumed_items.append("%s: %s" % (it["key"], it["assumed"]))
         evidence_runs.append(dict(run=tag, file=os.path.relpath(out, VERIF), verified_items=verified, errors=errors, clause_obligations=len(names),
                                   wall_s=round(wall, 2), tool_errors=len(tool)))
-    return dict(failures=all_fail, undecided=undecided, runs=evidence_runs, obligations=n_obl, discharged=max(n_dis, 0), obl_names=obl_names,
+    vac = []
+    if tier == "thorough" and not undecided:
+        for r in runs:
+            v = vacuity_run(pid, r, os.path.join(BUILD, pid))
+            v["run"] = "%s/%s/%s" % (r["unit"], ",".join(r["groups"]), r.get("mode", "T"))
+            vac.append(v)
+            if v["unreached"]:
+                undecided.append("vacuity: %d probe(s) verified instead of failing (contradictory requires / invariant?): %s" % (len(v["unreached"]), v["unreached"][:5]))
+    return dict(vacuity=vac, failures=all_fail, undecided=undecided, runs=evidence_runs, obligations=n_obl, discharged=max(n_dis, 0), obl_names=obl_names,
                 cmds=cmds, solver_ms=solver_ms, functions=fn_under_contract, assumed=sorted(set(assumed_items)), wall=time.time() - t0)
+
+
+def vacuity_run(pid, r, out_dir):
+    """thorough tier: regenerate the run with an uninterpreted probe asserted at every function entry and loop-body entry of
+    the verified functions; every probe must be REPORTED as failing.  -> dict(inserted, reached, unreached, note)"""
+    unit_dir = os.path.join(VERIF, "units", r["unit"])
+    feats = tuple(r.get("features", ("parallel", "shred-derive")))
+    gen.VACUITY[0] = True
+    gen.PROBES[:] = []
+    try:
+        em, _, _, _ = gen.generate(unit_dir, features=feats, mode=r.get("mode", "T"), active=set(r["groups"]))
+    except Exception as e:
+        return dict(inserted=0, reached=0, unreached=[], note="not generated: %s" % e)
+    finally:
+        gen.VACUITY[0] = False
+    probes = list(gen.PROBES)
+    path = os.path.join(out_dir, "vac_%s_%s_%s.rs" % (r["unit"], "_".join(sorted(r["groups"])), r.get("mode", "T")))
+    txt = em.text()
+    open(path, "w").write(txt)
+    lines = txt.split("\n")
+    _, rc, vj, diags, stderr, wall = run_verus(path, rlimit=r.get("rlimit", 60), multiple=200)
+    reached, limited = set(), False
+    for d in diags:
+        if d.get("level") != "error":
+            continue
+        if "Resource limit" in d.get("message", "") or "rlimit" in d.get("message", ""):
+            limited = True
+        for sp in d.get("spans", []):
+            for ln in range(sp.get("line_start", 0), sp.get("line_end", 0) + 1):
+                if 0 < ln <= len(lines):
+                    m = re.search(r"vx_probe\((\d+)\)", lines[ln - 1])
+                    if m and "assertion failed" in d.get("message", ""):
+                        reached.add(int(m.group(1)))
+    unreached = [probes[k] for k in range(len(probes)) if k not in reached]
+    note = ""
+    if vj is None:
+        note = "verus produced no result on the probe file"
+        unreached = []
+    elif limited:
+        note = "resource limit hit on the probe file; unreached probes not counted"
+        unreached = []
+    return dict(inserted=len(probes), reached=len(reached), unreached=unreached, note=note, wall_s=round(wall, 1))
 
 
 def assumption_scan(pid):
@@ -275,7 +326,7 @@ def assumption_scan(pid):
     found = {}
     d = os.path.join(BUILD, pid)
     for f in sorted(os.listdir(d)):
-        if not f.endswith(".rs"):
+        if not f.endswith(".rs") or f.startswith("vac_"):
             continue
         meta = json.load(open(os.path.join(d, f + ".map.json")))["linemap"]
         for n, line in enumerate(open(os.path.join(d, f)).read().split("\n")):
@@ -402,6 +453,7 @@ def main():
             fixed_findings=[x for x in fixed if x["property"] == pid],
             violations=[dict(obligation=f["obligation"], kind=f["kind"], clause=f.get("text")) for f in viol],
             bounded_search_of_real_crate=bsum,
+            vacuity_probes=res.get("vacuity") or "thorough tier only",
     )
     level = "proof"
     if standin:
@@ -417,8 +469,8 @@ def main():
         wall_s=round(res["wall"] + (bounded.get("wall", 0) if bounded else 0), 2),
         violations=len(viol) + (1 if found and not viol else 0),
     )
-    os.makedirs(os.path.join(VERIF, "evidence"), exist_ok=True)
-    json.dump(ev, open(os.path.join(VERIF, "evidence", pid + ".json"), "w"), indent=1)
+    os.makedirs(EVID, exist_ok=True)
+    json.dump(ev, open(os.path.join(EVID, pid + ".json"), "w"), indent=1)
     first = True
     for f, rp in zip(viol, replay_paths):
         print("failed obligation: %s (%s)%s" % (f["obligation"], f["kind"], (" clause: " + f["text"]) if f.get("text") else ""))
